@@ -24,7 +24,7 @@ CONSTANTS DBs, RPs,                \* database names, policy names (strings); "a
           WithEmptyDB,             \* CreateDatabase* may also be called with the empty name
           CDurs, CSGDs, CReps,     \* CreateRetentionPolicy: durations, shard group durations, replica counts
           XNames, XDurs, XSGDs, XReps,   \* CreateDatabaseWithRetentionPolicy: policy names ("" = not given), durations / replica counts (99 = nil)
-          UNames, UDurs, USGDs,    \* UpdateRetentionPolicy: new names ("-" = nil), durations, shard group durations (99 = nil)
+          UNames, UDurs, USGDs,    \* UpdateRetentionPolicy: new names ("-" = nil, "" = the empty name), durations, shard group durations (99 = nil)
           UFull,                   \* TRUE: every combination of update fields; FALSE: rename alone or durations alone
           AutoCreate,              \* Config.RetentionAutoCreate
           MaxSG, MaxOps,
@@ -34,7 +34,8 @@ CONSTANTS DBs, RPs,                \* database names, policy names (strings); "a
           \* ---- quirks of the code (TRUE = as the code behaves, FALSE = as the contract wants it)
           DropKeepsDefault,        \* DropRetentionPolicy leaves DefaultRetentionPolicy naming the dropped policy
           RenameKeepsDefault,      \* UpdateRetentionPolicy(rename of the default policy, makeDefault = FALSE) leaves the old name as default
-          HalfYearIsLong           \* shardGroupDuration: exactly 180d defaults to 7d (documented rule: <= 6 months -> 1d)
+          HalfYearIsLong,          \* shardGroupDuration: exactly 180d defaults to 7d (documented rule: <= 6 months -> 1d)
+          RenameAcceptsEmpty       \* UpdateRetentionPolicy renames a policy to "" (CreateRetentionPolicy never stores an empty name)
 
 VARIABLES dbs,     \* Seq of [n, def, rps: Seq of [n, dur, sgd, rep, sg]]   (sg = ids of the policy's shard groups)
           nsg,     \* Data.MaxShardGroupID
@@ -141,6 +142,9 @@ DoDropRP(ds, g, op) ==
              ELSE R([ds EXCEPT ![i].rps = RemoveAt(@, j),
                                 ![i].def = IF @ = op.rp /\ ~DropKeepsDefault THEN "" ELSE @], g, "ok", TRUE)
 
+\* DatabaseInfo.RetentionPolicy(name) # nil: the empty name stands for the default policy
+Taken(d, name) == IF name = "" THEN d.def # "" /\ Idx(d.rps, d.def) # 0 ELSE Idx(d.rps, name) # 0
+
 \* Client.UpdateRetentionPolicy(database, name, rpu{Name, Duration, ShardGroupDuration}, makeDefault)
 DoUpdateRP(ds, g, op) ==
   LET i == Idx(ds, op.db)
@@ -148,7 +152,8 @@ DoUpdateRP(ds, g, op) ==
      ELSE LET j == Idx(ds[i].rps, op.rp)
           IN IF j = 0 THEN R(ds, g, "rpnotfound", FALSE)
              ELSE LET e == ds[i].rps[j]
-                  IN IF op.nn # NoName /\ op.nn # op.rp /\ Idx(ds[i].rps, op.nn) # 0 THEN R(ds, g, "nameexists", FALSE)
+                  IN IF op.nn = "" /\ ~RenameAcceptsEmpty THEN R(ds, g, "namerequired", FALSE)
+                     ELSE IF op.nn # NoName /\ op.nn # op.rp /\ Taken(ds[i], op.nn) THEN R(ds, g, "nameexists", FALSE)
                      ELSE IF op.dur # Nil /\ TooLow(op.dur) THEN R(ds, g, "toolow", FALSE)
                      ELSE IF \/ /\ op.dur # Nil /\ op.dur > 0
                                 /\ \/ (op.sgd # Nil /\ op.dur < op.sgd)          \* the RAW new shard group duration
@@ -338,5 +343,9 @@ Inv_ProbeOutcomes ==
      OutcomeOK(l.op, [dbs |-> IF l.same THEN dbs ELSE l.dbs, nsg |-> l.nsg, err |-> l.err, bump |-> l.bump])
 
 
-View == <<dbs, nsg, leaf>>       \* nops and hist hidden (BFS reaches a state first with the fewest operations)
+\* Generation (one TLC worker = strict breadth-first order): nops and hist hidden, so every meta data state is kept once, with a
+\* shortest witness history.  Model checking (several workers): nops stays visible, which makes the set of explored states
+\* independent of the scheduling of the workers (a state reached again after more operations is simply explored again).
+View  == <<dbs, nsg, leaf>>
+ViewN == <<dbs, nsg, nops, leaf>>
 =============================================================================
